@@ -371,6 +371,16 @@ type replayCase struct {
 
 var reporter = c16.NewReporter()
 
+// guard watches every in-process render (a directive that never returns must
+// not take the checker down; see c16/guard.go)
+var guard *c16.Guard
+
+// renderGuarded renders a.m of comp on d under watch.
+func renderGuarded(cs *c16.Case, comp *core.Compiled, x data.Value, d, ij data.Map) (res core.RenderResult) {
+	guard.Run(cs, x, func() { res = comp.Render(cs.Render, d, ij) })
+	return
+}
+
 func report(ctx *core.Ctx, sig core.Sig, what string, m ModeRow, row *ChainRow, v *Value, o Obs, expected string) {
 	if !reporter.First(sig) {
 		return
@@ -437,6 +447,9 @@ func Run(ctx *core.Ctx) {
 	t := ExportTables(ctx)
 	if t != nil {
 		real := c16.NewReal()
+		guard = c16.NewGuard(ctx, "print-directive")
+		real.G = guard
+		defer func() { ctx.Extra["renders_slow_not_confirmed"] = guard.SlowNotConfirmed() }()
 		vals := Values(t, ctx.Thorough())
 		ctx.Extra["replay_values"] = len(vals)
 		off, y, errs := offTables(real, t, vals)
@@ -600,12 +613,13 @@ func Grid(ctx *core.Ctx, real *c16.Real, t *Tables, vals []Value, off, y [][]str
 						"valid site program rejected: "+err.Error(), map[string]interface{}{"files": files})
 					continue
 				}
+				cs := &c16.Case{Files: files, Render: "a.m", ChainText: row.Text}
 				for vi := range vals {
 					if j.sample != 0 && !inSample[j.sample][vi] {
 						continue
 					}
 					v := &vals[vi]
-					res := comp.Render("a.m", data.Map{"x": v.X}, nil)
+					res := renderGuarded(cs, comp, v.X, data.Map{"x": v.X}, nil)
 					o := Obs{Out: res.Out, Off: off[j.ci][vi], Y: y[j.ci][vi], Err: res.Err != nil}
 					ln++
 					if o.Err {
@@ -718,7 +732,7 @@ func RandomTraces(ctx *core.Ctx, real *c16.Real, t *Tables, n int) {
 				ctx.ToolError("M3: site program does not compile: %v", err)
 				return
 			}
-			res := comp.Render("a.m", data.Map{"x": v.X}, nil)
+			res := renderGuarded(&c16.Case{Files: SiteFiles(m, row.Text), Render: "a.m", ChainText: row.Text}, comp, v.X, data.Map{"x": v.X}, nil)
 			o := Obs{Out: res.Out, Err: res.Err != nil}
 			o.Off, _ = real.RenderOff(row.Text, v.X)
 			if row.K > 1 {
@@ -812,6 +826,10 @@ func Replay(ctx *core.Ctx) {
 		return
 	}
 	rc := f.Replay
+	if rc.Kind == "no-return" {
+		fmt.Println("replay: this finding is a render that does not return; it is not re-run (render the saved files with the saved value under a deadline)")
+		return
+	}
 	var x data.Value
 	text := ""
 	isStr := true
